@@ -382,3 +382,86 @@ theorem wf_updateAt (g : Forest → Option Forest) (hg : ∀ d d', WF d → g d 
           exact ⟨by rw [h5]; exact h1, h2, ihr r h3 hu⟩
 
 end Skops.Card.Forest
+
+namespace Skops.Card.Forest
+
+/-! ### `modifyLeaf` / `modifyAt` -/
+
+theorem get?_modifyLeaf (g : Sec → Sec) (f f' : Forest) (k : String) (h : f.modifyLeaf g k = some f') (x : String) :
+    f'.get? x = if x = k then (f.get? x).map (fun p => (g p.1, p.2)) else f.get? x := by
+  induction f generalizing f' with
+  | nil => simp [modifyLeaf] at h
+  | cons k' s ch rest _ ihr =>
+    by_cases hk : k' = k
+    · subst hk
+      simp [modifyLeaf] at h; subst h
+      by_cases hx : x = k'
+      · subst hx; simp [get?]
+      · have : ¬ (k' = x) := fun e => hx e.symm
+        simp [get?, hx, this]
+    · simp only [modifyLeaf, hk, if_false] at h
+      cases hm : rest.modifyLeaf g k with
+      | none => simp [hm] at h
+      | some r =>
+        simp [hm] at h; subst h
+        have := ihr r hm
+        by_cases hx : k' = x
+        · subst hx
+          have : ¬ (k' = k) := hk
+          simp [get?, this]
+        · simp only [get?, hx, if_false, this]
+
+theorem modifyLeaf_none_iff (g : Sec → Sec) (f : Forest) (k : String) :
+    f.modifyLeaf g k = none ↔ f.get? k = none := by
+  induction f with
+  | nil => simp [modifyLeaf, get?]
+  | cons k' s ch rest _ ihr =>
+    by_cases hk : k' = k
+    · subst hk; simp [modifyLeaf, get?]
+    · simp only [modifyLeaf, hk, if_false, get?]
+      cases hm : rest.modifyLeaf g k with
+      | none => simpa [hm] using ihr
+      | some r => simpa [hm] using ihr
+
+/-- modifying the section at a path changes that section's data and nothing else -/
+theorem modify_refines (g : Sec → Sec) (f f' : Forest) (p : List String) (leaf : String)
+    (h : f.modifyAt g p leaf = some f') (q : List String) :
+    dataAt f' q = if q = p ++ [leaf] then (dataAt f q).map g else dataAt f q := by
+  induction p generalizing f f' q with
+  | nil =>
+    simp only [modifyAt, updateAt] at h
+    have hg := get?_modifyLeaf g f f' leaf h
+    match q with
+    | [] => simp [dataAt]
+    | [k] =>
+      simp only [dataAt, lookup_single, hg k, List.nil_append, List.cons.injEq, and_true]
+      by_cases hk : k = leaf
+      · subst hk; simp; cases f.get? k <;> simp
+      · simp [hk]
+    | k :: k' :: ks =>
+      have hne : ¬ (k :: k' :: ks = [] ++ [leaf]) := by simp
+      simp only [dataAt, hne, if_false, lookup_cons_cons, hg k]
+      by_cases hk : k = leaf
+      · subst hk; simp; cases f.get? k <;> simp
+      · simp [hk]
+  | cons n ns ih =>
+    obtain ⟨s, ch, ch', h1, h2, h3, h4, _⟩ := updateAt_cons_some _ f f' n ns h
+    match q with
+    | [] => simp [dataAt]
+    | [k] =>
+      have hne : ¬ ([k] = n :: ns ++ [leaf]) := by
+        intro e; have := congrArg List.length e; simp at this
+      by_cases hk : k = n
+      · subst hk; simp [dataAt, lookup_single, h1, h3, hne]
+      · simp [dataAt, lookup_single, h4 k hk, hne]
+    | k :: k' :: ks =>
+      by_cases hk : k = n
+      · subst hk
+        have ih' := ih ch ch' h2 (k' :: ks)
+        simp only [dataAt, lookup_cons_cons, h1, h3, List.cons_append, List.cons.injEq, true_and] at ih' ⊢
+        exact ih'
+      · have hne : ¬ (k :: k' :: ks = n :: ns ++ [leaf]) := by
+          intro e; simp at e; exact hk e.1
+        simp only [dataAt, hne, if_false, lookup_congr_head f f' k (k' :: ks) (h4 k hk)]
+
+end Skops.Card.Forest
